@@ -51,7 +51,9 @@ CHECKS.update({
             "Executable Coq model of find_group_cohorts (incidence, exact cohorts, preference rules, containment merging, the asserts) with "
             "theorems for ALL inputs: incidence exact; in EVERY multi-block branch incl. the merging loop (any rows, any visiting order) the cohorts "
             "list every present label exactly once and each cohort's block set contains every block of its labels; 'blockwise' only if every label "
-            "is confined to one block; the per-axis block selection (_normalize_indexes: int / slice / list form) selects exactly the requested blocks. "
+            "is confined to one block; the per-axis block selection (_normalize_indexes: int / slice / list form) selects exactly the requested blocks; the graph wiring of "
+            "a cohort (subset_to_blocks indexes the block-key array one axis at a time) puts at output position (p0,p1,..) the input block (sel0[p0],sel1[p1],..) for block grids of "
+            "any number of axes (NdTake model, K2 against the layer really built, position by position). "
             "Tie: exact K2 correspondence (method, cohorts, order) on all small 1-D layouts x chunkings x merge + random 2-D / dense layouts; each real "
             "answer also checked against the soundness predicates; provenance sums (2**i) and dependency closures of real graphs.",
             NOTE_COMMON + "The consequence for real graphs (dependency closure of each output chunk, exactly-once contribution) is observed on "
@@ -92,11 +94,14 @@ CHECKS.update({
             "_factorize_single vs pandas.cut (oracle) and the Coq model; _ravel_factorized vs model; K3 1-3 groupers eager/dask/dask labels.",
             NOTE_COMMON, "Coq proof (arithmetic on sorted edges, mixed radix) + exhaustive small-scope correspondence", "5 C07"),
     "C08": ("proof",
-            "Coq theorems: offset codes separate rows (slot g+row*ngroups receives exactly row's members of g; -1 preserved); the flattened reduction "
-            "with offset codes equals the row-by-row 1-D grouped reduction for any number of rows. Tie: K2 offset_labels vs model; K3 arrays of 1-4 dims, "
-            "labels 1-3 dims, every axis subset/order/sign, eager and dask chunked on every axis vs slice-by-slice NumPy.",
-            NOTE_COMMON + "The transposition/squeeze plumbing beyond the flattened (rows x reduced) form is validated by K3, not proved.",
-            "Coq proof (index arithmetic) + differential correspondence", "5 C08"),
+            "Coq theorems for arrays of ANY number of dimensions: NdShape models (shape, C-ordered data), _move_reduce_dims_to_end as a transpose and _collapse_axis as a "
+            "C-order reshape; after the plumbing, row ravel(ki), column ravel(ri) holds the original element with ki on the kept axes and ri on the reduced axes (any ordered "
+            "subset of axes); ravel/unravel are inverse; offset codes separate rows (-1 preserved); hence the flattened reduction with offset codes is the slice-by-slice "
+            "1-D grouped reduction (C08_partial_axis_reduction_is_slicewise); leading axes are pure batch axes (C08_leading_dimensions_are_batch). Tie: exhaustive K2 of the "
+            "two plumbing functions vs NdShape.plumb (all shapes <= 4 dims x every ordered axis subset), K2 offset_labels, K3 arrays of 1-4 dims, labels 1-3 dims, every axis "
+            "subset/order/sign, eager and dask (3 methods) chunked on every axis vs slice-by-slice NumPy, xarray_reduce over n-D groupers.",
+            NOTE_COMMON + "numpy's transpose/reshape are modelled by index arithmetic (validated by the exhaustive K2); the squeeze of dummy axes and the broadcasting of size-1 label axes are validated by K3, not proved.",
+            "Coq proof (n-d index arithmetic: ravel/unravel, transpose, collapse, offsets) + differential correspondence", "5 C08"),
     "C10": ("proof",
             "Coq theorems: the chunked grouped scan (per-group state of earlier blocks combined with the in-block scan) equals the sequential per-group "
             "scan for EVERY chunking; the carried state may be assembled along any bracketing (Blelloch); nancumsum value = NumPy running nansum. Tie: K3 all "
@@ -126,7 +131,7 @@ CHECKS.update({
             NOTE_COMMON + "'No computation at graph-construction time' cannot be stated about a Gallina model of dask; it is observed, not proved.",
             "Coq proof (discovered-label mapping) + instrumented configuration-grid exploration", "5 C12"),
     "C13": ("proof",
-            "T4 translates every function reachable from a task callable (AST) into a flow-insensitive alias/effect IR together with a points-to certificate; "
+            "T4 translates every function reachable from a task callable (AST) into an alias/effect IR (flow-insensitive except for block-level binding versions; unreviewed callees may write into all their arguments) together with a points-to certificate; "
             "Coq re-checks the certificate (check_all) and the checker is PROVED sound: a checked function with no declared store never writes into an object that may "
             "be one of its parameters; executor theorem: re-executing pure tasks in any order leaves every value unchanged. Tie: K5 executes every task of random graphs "
             "by hand with read-only inputs, twice and after a cloudpickle round trip, and threaded vs synchronous.",
@@ -134,12 +139,14 @@ CHECKS.update({
             "serialisability and real data races are runtime facts seen only by K5.",
             "Coq-verified certificate checker over a generated effect IR + task-level re-execution harness", "5 C13"),
     "C14": ("proof",
-            "T3 extracts from the AST the ingredients of every graph-key token / layer name and the arguments bound into tasks; Coq proves coverage (every ingredient that "
+            "T4 translates the ~90 functions reachable from the public entry points (groupby_reduce, groupby_scan, rechunk helpers, xarray_reduce, _initialize_aggregation) into an "
+            "alias/effect IR in which module-level state (the registry AGGREGATIONS, caches) is a pseudo-parameter; the Coq-verified certificate checker proves that no entry point "
+            "may write into an argument or into module-level state. T3 extracts from the AST the ingredients of every graph-key token / layer name and the arguments bound into tasks; Coq proves coverage (every ingredient that "
             "reaches a task is in its token), that equal keys imply equal tasks for an injective hash, and that memoised helpers return the uncached value after ANY call "
             "history. Tie: K5 computes pairs/triples of lazy results differing in exactly one ingredient together (both orders) vs alone, argument/registry snapshots around "
-            "API calls, and histories replayed in a fresh interpreter.",
-            NOTE_COMMON + "dask.base.tokenize is assumed injective (collision-free) on the values met; global state outside flox (numpy error state, dask config) is observed only.",
-            "Coq proof (token coverage, key injectivity, memo refinement) over generated ingredients + co-computation harness", "5 C14"),
+            "API calls, histories replayed in a fresh interpreter, and histories with DEFERRED computation (lazy results built, other calls made, then computed) vs a fresh interpreter.",
+            NOTE_COMMON + "Trusted: T4's reviewed callee tables (pure third-party callees, xarray container methods return new containers, deep-ownership reading of objects); memoising decorators are modelled by the memo theorem; dask.base.tokenize is assumed injective (collision-free) on the values met; global state outside flox (numpy error state, dask config) is observed only.",
+            "Coq-verified effect-certificate checker over the entry points + Coq proof (token coverage, key injectivity, memo refinement) over generated ingredients + co-computation / history harness", "5 C14"),
     "C15": ("other",
             "Partial by nature: xarray is an independent implementation that is not modelled; native xarray groupby (use_flox=False) is a runtime ORACLE. Coq proves flox's own "
             "dimension bookkeeping (_restore_dim_order = stable sort by position in the object: permutation, ordered, stable) and K2 ties that model to the function; the check "
